@@ -18,7 +18,7 @@ CHECKS = {
    text="Digest of the public call == independent reading of doc/specs.md for every (key,input,version) of the alphabets, plus all cache bytes, the 8 SuperscalarHash programs, dataset items, generated program bytes and the register file after each program; repeated on clang, ASan/UBSan and portable builds in separate processes (determinism across builds).",
    note="The model is validated against RFC 7693, FIPS-197, RFC 9106 and the published RandomX vectors at setup; host IEEE-754 arithmetic is trusted.", ref="3/C02"),
  "C04": dict(cat="translation_validation", tech="exhaustive enumeration of bounded program families through both engines (program injection into real VM objects)",
-   text="Every program of the enumerated families (all 256 opcodes x 64 register pairs x all mod bytes x imm32 boundary set in two packings, all Sigma^k sequences at three positions, saturated, branch-distance, counter-threshold programs) is run through a real InterpretedVm and a real x86 CompiledVm; register file, complete scratchpad and rounding mode must be bit-identical, for v1/v2 x soft/hard AES x fast/light.",
+   text="Every program of the enumerated families (all 256 opcodes x 64 register pairs x all mod bytes x imm32 boundary set in two packings, all Sigma^k sequences at three positions, saturated, last-writer, branch-distance, counter-threshold programs) is run through a real InterpretedVm and a real x86 CompiledVm; register file, complete scratchpad and rounding mode must be bit-identical, and the x86 branch target of every CBRANCH must equal the interpreter's target (translation state, independent of whether the branch was taken), for v1/v2 x soft/hard AES x fast/light.",
    note="Programs are compositions of enumerated words; dataset content is one pseudo-random image; the 6-line run() glue is replicated in the harness (the real run() is covered by C01/C02).", ref="3/C04"),
  "C05": dict(cat="exploration", tech="exhaustive single-step enumeration (word x machine-state alphabet) on the interpreter against the specification model's step function",
    text="All 256 opcodes map to the specified instruction type; every word of W1 and of the sequence families is decoded in context by the interpreter and by the model (types, branch targets, constants) and executed alone from a 384-element machine-state alphabet incl. forced taken/not-taken branches; registers, touched scratchpad, rounding mode, next pc compared; FP-domain invariants (no NaN/subnormal, A in [1,2^32), E>0) monitored on every step and on whole programs.",
@@ -36,7 +36,7 @@ CHECKS = {
    text="Because blake2b_state is a POD, states are copied: from every state n every update of every chunk length must reach the canonical state of n+k and final() must give the model digest of the prefix; this covers all chunkings of every prefix up to Lmax for 8 (outlen,keylen) combinations; plus one-shot calls over all lengths x outlen 1..64 x key lengths, parameter rejection with guarded buffers, injected 128-bit counters, commitment for all input lengths 0..300.",
    note="> 4 GiB real message only in the thorough tier.", ref="3/C11"),
  "C12": dict(cat="exploration", tech="bounded exhaustive enumeration of round inputs (all states with <=2 non-zero bytes) and composite function parameters; soft == hard == FIPS-197 model",
-   text="7.9M single-round cases: soft tables == AES-NI == template dispatch == round built from the GF(2^8) definition; all T-table entries; fillAes1Rx4/4Rx4, hashAes1Rx4, hashAndFillAes1Rx4 in both instantiations == model over seeds x sizes x buffer images, combined step == fingerprint + refill + state.",
+   text="7.9M single-round cases: soft tables == AES-NI == template dispatch == round built from the GF(2^8) definition; all T-table entries; fillAes1Rx4/4Rx4, hashAes1Rx4, hashAndFillAes1Rx4 in both instantiations == model over seeds x sizes x buffer images x buffer placements (128-byte aligned / 64 mod 128), combined step == fingerprint + refill + state.",
    note="Byte-deviation bound on states; the JIT's in-loop AES is covered by C04.", ref="3/C12"),
  "C13": dict(cat="exploration", tech="exhaustive enumeration of entry MXCSR states (thorough: all 2^16) x configurations x versions",
    text="For every entry MXCSR state, VM configuration, version and pre-selected input: digest == default-state digest and MXCSR on return == entry (all bits); pipelined interface with independent entry states before first/next/last; portable build with complete fegetenv images.",
@@ -45,7 +45,7 @@ CHECKS = {
    text="Every 32-bit divisor that is not zero or a power of two: randomx_reciprocal == randomx_reciprocal_fast == floor(2^(63+bitlen)/d) >= 2^63; the 33 no-op divisors on all 8 destination registers and all IMUL_RCP opcodes leave the interpreter's and the x86 emitter's last-writer table and all registers untouched, with 62 neighbours as negative control.",
    note="unsigned __int128 division of the host compiler is the reference.", ref="3/C18"),
  "C03": dict(cat="model_checking", tech="explicit-state search over API histories executed on the real objects (fork-cloned states, canonical concrete digest, depth-aware visited table), environment answers of a harness allocator enumerated",
-   text="For each explored VM flag set and each allocator answer (address reuse policy x fill pattern of fresh memory) all histories of documented-contract operations up to the depth bound are executed on the real objects; every digest returned anywhere must equal the digest of a fresh cache + fresh VM; crashes are violations; a second search without state merging must agree; the same search runs under ASan.",
+   text="For each explored VM flag set and each allocator answer (address reuse policy x fill pattern of fresh memory) all histories of documented-contract operations up to the depth bound, from two root states (one cache; two live caches with different keys), are executed on the real objects with iterative deepening; every digest returned anywhere must equal the digest of a fresh cache + fresh VM; crashes are violations; a second search without state merging must agree; the same search runs under ASan.",
    note="Two caches, one VM per flag set at a time, 2-4 keys and 2-3 inputs; histories longer than the depth bound are covered only through state merging; contract guards per DESIGN.md appendix B.", ref="3/C03"),
  "C06": dict(cat="exploration", tech="bounded exhaustive enumeration of adversarial programs in an environment where every out-of-bounds access faults (electric-fence allocator, guard pages), with code-buffer integrity oracle",
    text="Adversarial program families on x86 JIT and interpreter (fast/light, v1/v2, soft/hard AES) with every library buffer ending at a PROT_NONE page and code buffers bracketed by PROT_NONE pages; after every code generation the emitted program ends inside the program area and all earlier emitted code is byte-identical; worst-case code size per instruction word obtained by enumeration and a 384-slot program of it generated for every configuration; inputs of every length 0..300 ending at / starting after a guard page, output ending at one.",
